@@ -14,6 +14,9 @@ add("C01", "crash-isolated runtime exploration: Go runtime checks (panic via rec
 add("C02", "information-flow (taint) runtime monitor: uniquely marked context strings, output scanned for raw marker material; filter sweep plus random opt-out-free programs; repeated executions with swapped safe/tainted contexts",
     "Runtime exploration: every string leaf of a ~110-value context carries a marker made of < > & ' \"; all registered filters (minus declared opt-outs) are swept in 17 syntactic positions and random opt-out-free programs over the whole vocabulary (files, macros, inheritance, filter tag, array literals ...) are executed; the output is scanned for any raw special character that is not engine-originated. Held = no leak on the executions observed.",
     "Template text and literals are generated free of the special characters; the only engine-originated markup accepted is the '<type Value>' placeholder. In programs using the filter tag (which post-processes rendered text and can mangle that placeholder) a lone < or > and raw & are not judged; quotes and angle brackets adjacent to a raw & still are.")
+add("C03", "runtime monitor with harness-registered probe tag/filter (invocation counters in parser, node and filter function), recording loader, and a sequential ban-set/frozen-flag model checked against call histories",
+    "Runtime exploration: every registered tag/filter (from the hook) and counting probes are banned and then used through random routes (26 expression/filter-tag positions x nesting contexts x file-composition routes incl. lazy includes); compilation (or the lazy include's execution) must fail, probe counters and the loader log must show that the banned code never ran / its file was never fetched, programs without the banned name must render identically; random call histories over Ban*/From*/Render* on 1-2 sets are compared with a model of the ban set and the frozen flag through probe compiles. Held = no deviation on the programs and histories observed.",
+    "Invocation counting is only sound for the harness probes (built-in escape/iriencode are called internally), so built-in targets are judged by the compile error only. The first creation of every history succeeds (freezing on a failing first compile is unspecified).")
 add("C04", "metamorphic runtime monitor over execution histories: used compiled template vs a fresh compile executed once with the same context; error positions checked against the program's own sources",
     "Runtime exploration: random deterministic programs over every tag (with loader files, stateful-looking constructs, failing includes) are compiled once under each TrimBlocks x LStripBlocks setting and executed 2..8 times with contexts drawn with repetition from a pool (equal, failing, nil, type-swapped) through alternating entry points; after every execution the (output, error) pair must equal that of a fresh compile executed exactly once. Held = no divergence on the histories observed.",
     "Decides only the dynamic half of the property (no static write-effect analysis). Documented non-determinism (clock, randomness, Go map order incl. the evaluation order of several with-pairs/macro defaults) is not generated.")
